@@ -22,3 +22,7 @@ Definition missing_sem (k : cmp_kind) (validity : bool) (c : T O) : bool :=
   let r := match k with CmpEq0 => is0 O c | CmpNe0 => negb (is0 O c) | CmpGt0 => ltb O (zero O) c end in
   if validity then negb r else r.
 End Sem.
+
+(* the statement list of one method in a regenerated source table ([] when the table does not list it) *)
+Definition src_of (m : string) (tbl : list (string * list string)) : list string :=
+  match find (fun p => String.eqb (fst p) m) tbl with Some p => snd p | None => [] end.
